@@ -57,6 +57,7 @@ def den(h, n):
     return h['b_den'][n]
 
 
+SAMEORD = z3.Function('same_ordering', I, I, z3.BoolSort())      # Ordering.__eq__ (uninterpreted)
 OP = z3.Function('boolean_operator', I, z3.BoolSort(), z3.BoolSort(), z3.BoolSort())   # a binary operator passed as a value
 INORD = z3.Function('in_order', I, H, H, z3.BoolSort())                                # Ordering.in_order (uninterpreted)
 
@@ -127,6 +128,10 @@ class BddExt(Extension):
             return SV('func', None, ('bdd', 'WeakSet'))
         if name == 'find_isomorph':
             return SV('func', None, ('contract', 'find_isomorph'))
+        if name == 'BDDapply':
+            return SV('func', None, ('contract', 'apply'))       # `from .BDD import apply as BDDapply`
+        if name == 'Ordering':
+            return SV('bclass', None, 'Ordering')
         return None
 
     def attribute(self, E, ex, base, attr, path, node):
@@ -149,11 +154,25 @@ class BddExt(Extension):
             return SV('bound', None, (base, attr))
         if base.ty == 'ordering':
             return SV('bound', None, (base, attr))
+        if base.ty == 'obdd':
+            if attr == 'root':
+                return SV('bnode', h['o_root'][base.t])
+            if attr == 'ordering':
+                return SV('ordering', h['o_ord'][base.t])
+            return SV('bound', None, (base, attr))
         if base.ty == 'wset':
             return SV('bound', None, (base, attr))
         return None
 
     def set_attribute(self, E, ex, base, attr, v, path, st):
+        if self.on(ex) and base.ty == 'obdd' and attr in ('root', 'ordering'):
+            h = path.heap
+            comp = 'o_root' if attr == 'root' else 'o_ord'
+            if v.ty != ('bnode' if attr == 'root' else 'ordering'):
+                raise Unsupported('OBDD field %s := %s' % (attr, v.ty))
+            E.check_write(ex, (comp, base.t), path, st)
+            path.heap = h.with_(**{comp: z3.Store(h[comp], base.t, v.t)})
+            return True
         if not self.on(ex) or base.ty != 'bnode':
             return False
         h = path.heap
@@ -217,7 +236,34 @@ class BddExt(Extension):
             return E.call_contract(ex, 'BDDTerminalNode.__new__', [SV('str')] + args, kwargs, path, node)
         return None
 
+    def equal(self, E, ex, a, b, path, node):
+        if self.on(ex) and a.ty == 'ordering' and b.ty == 'ordering':
+            return SAMEORD(a.t, b.t)
+        return None
+
+    def coerce(self, E, ex, sv, ty, path):
+        if self.on(ex) and ty == 'boolop' and sv.ty == 'lambda':
+            # a lambda over two Booleans passed as the operator: a fresh operator value defined by the body
+            lam = sv.x
+            names = [a_.arg for a_ in lam.args.args]
+            if len(names) != 2:
+                raise Unsupported('operator lambda arity')
+            x, y = z3.Bool('x!op'), z3.Bool('y!op')
+            sub = path.fork()
+            sub.env[names[0]], sub.env[names[1]] = SV('bool', x), SV('bool', y)
+            body = ex.ev(lam.body, sub)
+            if body.ty != 'bool':
+                raise Unsupported('operator lambda returns %s' % body.ty)
+            op = hp.fresh('operator', I)
+            path.pc.append(z3.ForAll([x, y], OP(op, x, y) == body.t, patterns=[OP(op, x, y)]))
+            return SV('boolop', op)
+        return None
+
     def isinstance(self, E, ex, a, cls, path, node):
+        if self.on(ex) and cls.ty == 'bclass' and cls.x == 'Ordering' and a.ty == 'ordering':
+            return SV('bool', z3.BoolVal(True))
+        if self.on(ex) and cls.ty == 'func' and cls.x[0] == 'ctor' and cls.x[1] == 'OBDD' and a.ty == 'obdd':
+            return SV('bool', z3.BoolVal(True))
         if not self.on(ex) or a.ty not in ('bnode',) or cls.ty != 'bclass':
             return None
         if cls.x == 'BDDNode':
@@ -249,6 +295,10 @@ class BddExt(Extension):
         if base.ty == 'bnode' and attr == '__invert__':
             # dynamic dispatch: both bodies (terminal / non-terminal) are verified against the same clauses
             return E.call_contract(ex, 'BDDNonTerminalNode.__invert__', [base] + args, kwargs, path, node)
+        if base.ty == 'bnode' and attr == 'respect_ordering':
+            return SV('bool', hp.fresh('respects', z3.BoolSort()))      # not modelled: either answer
+        if base.ty == 'obdd' and attr == 'apply':
+            return E.call_contract(ex, 'OBDD.apply', [base] + args, kwargs, path, node)
         if base.ty == 'ordering' and attr == 'in_order' and len(args) == 2 and all(a.ty == 'H' for a in args):
             return SV('bool', INORD(base.t, args[0].t, args[1].t))
         return None
@@ -655,5 +705,91 @@ def install(E):
             requires=lambda c, extra=extra: apply_req(c) + extra(c), ensures=apply_ens, frame=apply_frame, may_write=apply_may_write,
             touches=set(DT), hints=dict(common, dict_kind_default='refdict', may_raise=('RuntimeError',)),
             raise_unchanged=False, owner='C17'), FILE)
+
+    # =====================================================================================================
+    # the OBDD wrapper (BDD/OBDD.py): the API-level statements of C17 for &, |, ^, ~ and apply
+    # =====================================================================================================
+    OFILE = 'BDD/OBDD.py'
+    OT = set(DT) | {'o_root', 'o_ord'}
+
+    def root(h, o):
+        return h['o_root'][o]
+
+    def obdd_ok(h, o):
+        return z3.And(o >= 0, o < h.alloc, z3.Not(h['b_node'][o]), node_ok(h, root(h, o)))
+
+    def oinit_ens(c):
+        h1, o = c.h1, c.self.t
+        return [('root_is_the_node', root(h1, o) == c.bfunct.t), ('ordering_is_the_given_one', h1['o_ord'][o] == c.ordering.t),
+                ('no_allocation', h1.alloc == c.h0.alloc)]
+
+    def oinit_frame(c):
+        from .contracts_graph import frame
+        o = c.self.t
+        return frame(c.h0, c.h1, c.h0.alloc, {'o_root': lambda r: r == o, 'o_ord': lambda r: r == o})
+
+    E.register(Contract(
+        'OBDD.__init__', 'obdd', [('self', 'obdd'), ('bfunct', 'bnode'), ('ordering', 'ordering'), ('check_ordering', 'opt:bool')], ret='none',
+        requires=lambda c: [('self_valid', z3.And(c.self.t >= 0, c.self.t < c.h0.alloc))], ensures=oinit_ens, frame=oinit_frame,
+        may_write=lambda c, comp, ref: (ref == c.self.t) if comp in ('o_root', 'o_ord') else None,
+        touches={'o_root', 'o_ord'}, hints=dict(common, may_raise=('ValueError',)), raise_unchanged=False, owner='C17',
+        note='the leg "bfunct is a node, ordering is an Ordering"; ValueError (the node does not respect the ordering) is allowed without saying when: '
+             'respect_ordering is not modelled'), OFILE)
+
+    def oapply_req(c):
+        h = c.h0
+        return node_state(h) + [('self_is_an_OBDD', obdd_ok(h, c.self.t)), ('B_is_an_OBDD', obdd_ok(h, c.B.t))]
+
+    def combo(c, opterm):
+        h1, r = c.h1, c.res.t
+        return z3.ForAll([SG], den(h1, root(h1, r))[SG] == opterm(den(h1, root(c.h0, c.self.t))[SG], den(h1, root(c.h0, c.other.t))[SG]),
+                         patterns=[den(h1, root(h1, r))[SG]])
+
+    def oapply_ens(c):
+        h0, h1, r = c.h0, c.h1, c.res.t
+        return node_state(h1) + nodes_kept(h0, h1) + [
+            ('result_is_a_new_OBDD', z3.And(r >= h0.alloc, obdd_ok(h1, r))),
+            ('same_ordering', z3.And(SAMEORD(h0['o_ord'][c.self.t], h0['o_ord'][c.B.t]), h1['o_ord'][r] == h0['o_ord'][c.self.t])),
+            ('denotes_the_combination', z3.ForAll([SG], den(h1, root(h1, r))[SG] == OP(c.operator.t, den(h1, root(h0, c.self.t))[SG],
+                                                                                      den(h1, root(h0, c.B.t))[SG]),
+                                                  patterns=[den(h1, root(h1, r))[SG]]))]
+
+    def wrapper_frame(c):
+        from .contracts_graph import frame
+        anyref = lambda r: z3.BoolVal(True)         # noqa
+        return frame(c.h0, c.h1, c.h0.alloc, {'b_fl': anyref, 'b_fh': anyref, 'rd_dom': anyref, 'rd_val': anyref})
+
+    E.register(Contract(
+        'OBDD.apply', 'obdd', [('self', 'obdd'), ('operator', 'boolop'), ('B', 'obdd')], ret='obdd',
+        requires=oapply_req, ensures=oapply_ens, frame=wrapper_frame, touches=set(OT),
+        hints=dict(common, dict_kind_default='refdict2', may_raise=('RuntimeError', 'ValueError')), raise_unchanged=False, owner='C17',
+        note='a normal return implies equal orderings (different orderings: RuntimeError); RuntimeError may also come from apply'), OFILE)
+
+    for name, opterm in (('__and__', z3.And), ('__or__', z3.Or), ('__xor__', z3.Xor)):
+        def ens(c, opterm=opterm):
+            h0, h1, r = c.h0, c.h1, c.res.t
+            return node_state(h1) + nodes_kept(h0, h1) + [
+                ('result_is_a_new_OBDD', z3.And(r >= h0.alloc, obdd_ok(h1, r))),
+                ('denotes_the_combination', z3.ForAll([SG], den(h1, root(h1, r))[SG] == opterm(den(h1, root(h0, c.self.t))[SG],
+                                                                                             den(h1, root(h0, c.A.t))[SG]),
+                                                      patterns=[den(h1, root(h1, r))[SG]]))]
+        E.register(Contract(
+            'OBDD.%s' % name, 'obdd', [('self', 'obdd'), ('A', 'obdd')], ret='obdd',
+            requires=lambda c: node_state(c.h0) + [('self_is_an_OBDD', obdd_ok(c.h0, c.self.t)), ('A_is_an_OBDD', obdd_ok(c.h0, c.A.t))],
+            ensures=ens, frame=wrapper_frame, touches=set(OT),
+            hints=dict(common, may_raise=('RuntimeError', 'ValueError')), raise_unchanged=False, owner='C17'), OFILE)
+
+    def oinv_ens(c):
+        h0, h1, r = c.h0, c.h1, c.res.t
+        return node_state(h1) + nodes_kept(h0, h1) + [
+            ('result_is_a_new_OBDD', z3.And(r >= h0.alloc, obdd_ok(h1, r))),
+            ('denotes_the_complement', z3.ForAll([SG], den(h1, root(h1, r))[SG] == z3.Not(den(h1, root(h0, c.self.t))[SG]),
+                                                 patterns=[den(h1, root(h1, r))[SG]]))]
+
+    E.register(Contract(
+        'OBDD.__invert__', 'obdd', [('self', 'obdd')], ret='obdd',
+        requires=lambda c: node_state(c.h0) + [('self_is_an_OBDD', obdd_ok(c.h0, c.self.t))],
+        ensures=oinv_ens, frame=wrapper_frame, touches=set(OT),
+        hints=dict(common, may_raise=('ValueError',), dict_kind_default='refdict'), raise_unchanged=False, owner='C17'), OFILE)
 
     return ['find_isomorph', 'BDDNode.__reset__', 'BDDNonTerminalNode.__reset__', 'BDDNonTerminalNode.__new__']
